@@ -3,9 +3,11 @@ installed verifiers) and enter the proofs as assumed contracts. That assumption 
 This back end pins that text (sha256 per file, contracts/kernel_fingerprints.json, recorded from the pinned tree):
  - all fingerprints equal  -> pass (nothing is proved: 0 obligations; the unit only reports that the assumed code is
    the code the assumption was made for);
- - a kernel file changed   -> undecided, with a *suspect* obligation per changed file, so that `check` runs the
-   directed search (platform-kernel family over all SIMD feature sets) on the real code: a concrete failing input
-   is a demonstrated violation, none found stays undecided (exit 2, never an alarm by itself).
+ - a kernel file changed   -> the assumption is re-examined inside the unit by the BOUNDED exploration of the directed
+   search (platform-kernel, xof and one-shot families over the build flavours that reach the changed file; for C07 the
+   C library family under ASan/UBSan with guard pages): a concrete failing input is a demonstrated violation; none, with
+   every planned family x flavour run to completion, lets the unit pass at level `bounded` (stated in the evidence, never
+   counted as proved); an incomplete exploration leaves it undecided (exit 2).
 """
 import hashlib
 import json
@@ -589,4 +591,46 @@ def run_unit(name, tier="quick"):
             fo["search"] = "c_api"
             fo["variants"] = (["intrinsics", "asm", "portable"] if b.endswith(".c") else ["asm", "intrinsics", "portable"])
         res.setdefault("suspect", []).append(fo)
+    # the assumption is re-examined right here by the bounded exploration: a disagreement is a violation with its failing
+    # input; none, with every planned family x build flavour run to completion, lets the unit pass at level BOUNDED (so
+    # stated in the evidence); an incomplete exploration leaves it undecided
+    import time
+    seed = int(os.environ.get("VERIF_SEED", "0") or 0)
+    prop = "C07" if name == "kernels_frames" else "C04"
+    complete = True
+    res["level"] = "bounded"
+    for fo in res.pop("suspect", []):
+        if fo.get("search") == "c_api":
+            import search_c
+            hit = search_c.find(prop, fo, seed, deadline=time.time() + 420)
+            log = hit.get("log") or {}
+            ok = bool(log.get("per_flavour")) and all(p.get("complete") for p in log["per_flavour"])
+            n = log.get("scenarios_run", 0)
+        else:
+            import search_impl
+            hit = search_impl.find(prop, dict(fo, budget=420), seed)
+            log = hit.get("log") or {}
+            ok = not log.get("note") and not log.get("build_errors") and log.get("scenarios_run", 0) > 0
+            n = log.get("scenarios_run", 0)
+        res["bounded"].append("%s changed: %d scenarios explored on the real code (%s)" % (fo.get("location"), n,
+                              "complete" if ok else "incomplete: " + str(log.get("note") or log.get("build_errors") or "")[:200]))
+        if hit.get("found"):
+            f = hit["found"]
+            fo2 = dict(fo)
+            fo2["message"] = "changed kernel source %s: the real code disagrees with the oracle (%s)" % (
+                fo.get("location"), str(f.get("field") or f.get("panic"))[:160])
+            fo2["clause"] = str(f.get("scenario"))[:300]
+            fo2["found"] = f
+            fo2["search_log"] = log
+            if fo.get("search") == "c_api":
+                fo2["found_from"] = "search_c"
+            res["failed"].append(fo2)
+            break
+        complete = complete and ok
+    if res["failed"]:
+        res["status"] = "fail"
+        res["undecided_reason"] = None
+    elif complete:
+        res["status"] = "pass"
+        res["undecided_reason"] = None
     return res
